@@ -48,6 +48,37 @@ func sequentialWrappers(r *lib.Report, tier string) (int64, int64, []interface{}
 			}
 		}
 		rec()
+		// the same with the node pool of the wrapped LinkedListQueue trimmed in between (KeepNodePoolCount(0) /
+		// ClearNodePool hand recycled nodes to the sync.Pool; under the retaining policies they come back): all
+		// histories to depth 8 over offer, poll, pop and the two trims
+		trimOps := []string{"offer", "poll", "pop", "trim-keep0", "trim-clear"}
+		trimDepth := 8
+		var rec2 func()
+		rec2 = func() {
+			if n := len(hist); n > 0 && trimOps[hist[n-1]] != "trim-keep0" && trimOps[hist[n-1]] != "trim-clear" {
+				trans++
+				if msg := replayWrappers(trimOps, hist); msg != "" {
+					names := make([]string, len(hist))
+					for i, o := range hist {
+						names[i] = trimOps[o]
+					}
+					r.Violation("C08|sequential|wrong-result|node-pool-trimmed", fmt.Sprintf("history %v on ConcurrentQueue / ConcurrentStack over one LinkedListQueue whose node pool is trimmed in between (sync.Pool policy %d): %s", names, pool, msg),
+						map[string]interface{}{"history": names, "sync_pool_policy": pool})
+					return
+				}
+				states++
+			}
+			if len(hist) == trimDepth {
+				return
+			}
+			for o := range trimOps {
+				hist = append(hist, o)
+				rec2()
+				hist = hist[:len(hist)-1]
+			}
+		}
+		hist = hist[:0]
+		rec2()
 		// bursts: fill n, drain n+1, on one queue, for sizes that cross any node-recycling threshold below 1200
 		for _, sizes := range [][]int{{3, 1, 3}, {16, 1, 16}, {300, 300, 300}, {1100, 1100, 3}, {2, 1200, 2, 1200}} {
 			trans++
@@ -187,6 +218,10 @@ func replayWrappers(ops []string, hist []int) string {
 					}
 					m = m[1:]
 				}
+			case "trim-keep0":
+				l.KeepNodePoolCount(0)
+			case "trim-clear":
+				l.ClearNodePool()
 			case "pop":
 				got, err := cs.Pop()
 				if len(m) == 0 {
